@@ -85,11 +85,23 @@ impl PlanePersistence for InMemoryPlanePersistence {
             Some((key, NodeEntry::InUse(_))) => {
                 let (tx, rx) = oneshot::channel();
                 map.insert(key, NodeEntry::InUse(Some(tx)));
-                let plane_ref = inner.clone();
-                let name = node_uri.to_string();
+                let mut pending = PendingNodeState {
+                    uri: node_uri.to_string(),
+                    plane: inner.clone(),
+                    rx: Some(rx),
+                };
                 async move {
-                    if let Ok(node_state) = rx.await {
-                        Ok(InMemoryNodePersistence::new(name, plane_ref, node_state))
+                    let result = match pending.rx.as_mut() {
+                        Some(rx) => rx.await,
+                        None => unreachable!(),
+                    };
+                    pending.rx = None;
+                    if let Ok(node_state) = result {
+                        Ok(InMemoryNodePersistence::new(
+                            std::mem::take(&mut pending.uri),
+                            pending.plane.clone(),
+                            node_state,
+                        ))
                     } else {
                         Err(StoreError::InitialisationFailure(
                             "Multiple copies of agent instance starting.".to_string(),
@@ -107,6 +119,31 @@ impl PlanePersistence for InMemoryPlanePersistence {
                     node_state,
                 )))
                 .boxed()
+            }
+        }
+    }
+}
+
+/// The receiving end of a state hand-over between two instances of an agent. If the new instance is
+/// cancelled after the previous instance has already sent the state, the state is returned to the plane
+/// (otherwise it would be lost and the node could never be opened again).
+struct PendingNodeState {
+    uri: String,
+    plane: Arc<Mutex<PlaneState>>,
+    rx: Option<oneshot::Receiver<NodeState>>,
+}
+
+impl Drop for PendingNodeState {
+    fn drop(&mut self) {
+        if let Some(mut rx) = self.rx.take() {
+            rx.close();
+            if let Ok(state) = rx.try_recv() {
+                // Dropping a node store returns its state to the plane (or to the next waiting instance).
+                drop(InMemoryNodePersistence::new(
+                    std::mem::take(&mut self.uri),
+                    self.plane.clone(),
+                    state,
+                ));
             }
         }
     }
